@@ -154,6 +154,26 @@ def make_world(seed):
                 w.plant_sites(chrom, intr, st_, cl_)
             w.genes.append(g)
             pos = ex[-1][1] + rng.randint(2500, 3500)
+        # novel isoform that shares its first (last) intron with an annotated gene of strand S, while its two other introns are canonical
+        # on the OTHER strand and its reads carry tails of the other strand: splice-site majority and tails agree, the annotation does not
+        for k, ann_strand in enumerate("-+"):
+            nov_strand = "+" if ann_strand == "-" else "-"
+            a = [(pos, pos + 300), (pos + 800, pos + 1100)]
+            n = [(pos, pos + 300), (pos + 800, pos + 1000), (pos + 1500, pos + 1800), (pos + 2300, pos + 2600)]
+            if nov_strand == "-":
+                span = 2600
+                a = sorted((2 * pos + span - e, 2 * pos + span - s_) for s_, e in a)
+                n = sorted((2 * pos + span - e, 2 * pos + span - s_) for s_, e in n)
+            g = Gene("MIX%d_%d" % (ci + 1, k + 1), chrom, ann_strand)
+            g.transcripts.append(Transcript(g.id + ".t1", g.id, chrom, ann_strand, a, True, "mixed-introns-host"))
+            g.hidden.append(Transcript(g.id + ".h1", g.id, chrom, nov_strand, n, False, "mixed-introns-novel"))
+            shared = g.transcripts[0].introns[0]
+            w.plant_sites(chrom, shared, ann_strand, "canonical")
+            for intr in g.hidden[0].introns:
+                if intr != shared:
+                    w.plant_sites(chrom, intr, nov_strand, "canonical")
+            w.genes.append(g)
+            pos += 2600 + rng.randint(2500, 3500)
         # ordinary genes with all site classes, hidden isoforms for novel models
         for gi, sc in enumerate(("canonical", "gc_ag", "at_ac", "opposite", "none", "canonical")):
             g, end = w.make_gene("G%d_%d" % (ci + 1, gi + 1), chrom, pos, rng.choice("+-"), n_exons=rng.randint(4, 6),
@@ -196,7 +216,7 @@ def make_world(seed):
                 w.plant_sites(t.chrom, (ex[-1][1] + 1, right_exon[0] - 1), t.strand, "canonical")
                 w.make_read(t.chrom, ex + [right_exon], truth={"src": t.id, "class": "extra-right-exon-outside-gene"})
         for t in g.hidden:
-            for _ in range(24 if t.kind == "contested-intron-novel" else 12 if t.kind == "splice-site-tie" else 7):
+            for _ in range(24 if t.kind == "contested-intron-novel" else 12 if t.kind in ("splice-site-tie", "mixed-introns-novel") else 7):
                 w.read_from_transcript(t, mode="full", jitter=0, polya=True, flag=rng.choice((0, 16)))
     from vlib import world2
     world2.add_zoo(w)
@@ -207,7 +227,7 @@ def run(chk, scratch):
     thorough = chk.tier == "thorough"
     chk.rule = ("worlds with introns canonical on '+', on '-', on neither (GT-AG, GC-AG, AT-AC and reverse complements), loci where a '+' and a '-' "
                 "isoform share an intron exactly (both processing orders x three site classes), reads with extra introns outside the gene region, "
-                "unannotated loci whose splice sites are a tie between the strands (tails decide), hidden isoforms for novel models (also over an intron annotated on both strands, the annotation majority contradicting the reference); --check_canonical with every --report_canonical level and thread counts; every logged "
+                "a soft-masked copy of the reference (same sequence, lower-case stretches) must give identical outputs; novel isoforms sharing one intron with a gene of the other strand; unannotated loci whose splice sites are a tie between the strands (tails decide), hidden isoforms for novel models (also over an intron annotated on both strands, the annotation majority contradicting the reference); --check_canonical with every --report_canonical level and thread counts; every logged "
                 "check_sites_are_canonical query, every Canonical= TSV value, every Canonical GTF attribute and every novel model strand is judged. "
                 "non-trivial = distinct (intron, strand) pairs queried; of special interest introns queried with both strands in one locus")
     n_seeds = 8 if thorough else 2
@@ -229,6 +249,21 @@ def run(chk, scratch):
                                                          "--model_construction_strategy", "sensitive_ont"] +
                          (["--polya_requirement", "never"] if (seed + len(lvl)) % 2 == 0 else []),
                          mon=["canon"], events=ev)
+        # the same run on a soft-masked copy of the reference (lower-case stretches): the sequence is the same
+        if job == jobs[0] or job == jobs[-1]:
+            dm = os.path.join(d, "masked")
+            os.makedirs(dm)
+            mrng = __import__("random").Random(seed)
+            with open(os.path.join(d, "g.fa")) as src, open(os.path.join(dm, "g.fa"), "w") as dst:
+                for line in src:
+                    dst.write(line if line.startswith(">") or mrng.random() < 0.4 else line.lower())
+            shutil.copy(os.path.join(d, "g.fa.fai"), os.path.join(dm, "g.fa.fai"))
+            for f in ("a.gtf", "r.bam", "r.bam.bai"):
+                os.symlink(os.path.join(d, f), os.path.join(dm, f))
+            rm_ = pipeline.run(dm, os.path.join(dm, "out"), threads=threads, home=os.path.join(dm, "home"),
+                               extra=["--check_canonical", "--report_canonical", lvl, "--model_construction_strategy", "sensitive_ont"] +
+                               (["--polya_requirement", "never"] if (seed + len(lvl)) % 2 == 0 else []))
+            r["masked"] = (rm_, os.path.join(dm, "out"))
         return job, d, w, shared, out, ev, r
     both_strands = 0
     queries = 0
@@ -242,6 +277,15 @@ def run(chk, scratch):
         if r["rc"] != 0:
             chk.violation("run-failed", "run failed (%s): %s" % (desc, pipeline.fail_text(r)), wit)
             continue
+        if r.get("masked"):
+            rm_, mout = r["masked"]
+            chk.count("soft_masked_runs")
+            if rm_["rc"] != 0:
+                chk.violation("soft-masked-reference:run-failed", "%s: run on the soft-masked copy of the reference exited %s: %s" % (desc, rm_["rc"], pipeline.fail_text(rm_)), wit)
+            else:
+                for rel, why in runner.compare_trees(os.path.join(out, pipeline.PREFIX), os.path.join(mout, pipeline.PREFIX))[:6]:
+                    chk.violation("soft-masked-reference-changes-output:%s" % (rel.split(".", 1)[1] if "." in rel else rel),
+                                  "%s: %s %s between the upper-case reference and its soft-masked (partly lower-case) copy" % (desc, rel, why), wit)
         # (1) function level: the query log
         per_locus = defaultdict(lambda: defaultdict(set))
         for e in runner.load_events(ev):
@@ -332,6 +376,8 @@ def run(chk, scratch):
                         chk.count("novel_models_over_an_intron_annotated_on_both_strands")
                     if h is not None and h.kind == "splice-site-tie":
                         chk.count("novel_models_with_tied_splice_sites")
+                    if h is not None and h.kind == "mixed-introns-novel":
+                        chk.count("novel_models_with_mixed_introns")
                     if t["strand"] in ("+", "-") and evidence and t["strand"] not in evidence.values():
                         chk.violation("novel-model-strand-contradicts-all-evidence",
                                       "%s: %s reported on %s, evidence %s" % (desc, tid, t["strand"], evidence), wit)
@@ -346,6 +392,8 @@ def run(chk, scratch):
                        "records with strand '.' have no reported strand and are not judged",
                        "a novel model's strand is a violation only when it contradicts every available kind of evidence"]
     chk.inconclusive_if(queries == 0, "canonical monitor never fired")
+    chk.inconclusive_if(chk.extra.get("soft_masked_runs", 0) == 0, "no run on a soft-masked reference")
+    chk.inconclusive_if(chk.extra.get("novel_models_with_mixed_introns", 0) == 0, "no novel model with mixed introns was produced")
     chk.inconclusive_if(chk.extra.get("novel_models_over_an_intron_annotated_on_both_strands", 0) == 0,
                         "no novel model over an intron annotated on both strands was produced")
     chk.inconclusive_if(chk.extra.get("novel_models_with_tied_splice_sites", 0) == 0, "no novel model with tied splice-site evidence was produced")
